@@ -326,7 +326,7 @@ def ut_setup(ex, st, a):
 def t_update_time():
     specs = market_callee_specs()
     specs[("m", "Market", "_fill_until")] = FILL_UNTIL.handler()
-    loops = {0: ForEachTrace(header="logs", name="write-buy-expirations"), 1: ForEachTrace(header="logs_", name="write-sell-expirations")}
+    loops = {0: ForEachTrace(name="write-buy-expirations"), 1: ForEachTrace(name="write-sell-expirations")}      # which list each loop iterates is checked by the trace contract
     obl, info = UPDATE_TIME.verify(specs=specs, loops=loops, setup=ut_setup)
     return {"obligations": obl, "info": [info]}
 
